@@ -75,12 +75,12 @@ macro_rules! wal_l1c {
     };
 }
 
-//@ also=C13 tier=quick timeout=900 mem=8 bits=1040 unwind=4 unwindset="c12_walrec=164;memcmp=34" fns=warp_core::causal_wal::SubmissionAcceptanceRecord::from_payload_bytes,SubmissionAcceptanceRecord::to_payload_bytes,WalPayloadCursor::read_hash,read_optional_hash,finish
+//@ also=C13 tier=off timeout=900 mem=8 bits=1040 unwind=4 unwindset="c12_walrec=164;memcmp=34" fns=warp_core::causal_wal::SubmissionAcceptanceRecord::from_payload_bytes,SubmissionAcceptanceRecord::to_payload_bytes,WalPayloadCursor::read_hash,read_optional_hash,finish
 //@ bounds="every byte string of length 128, 129 (valid) and 130 whose option tag (byte 64) is 0"
 //@ desc="submission acceptance record without idempotency key: accepted => re-encodes to exactly the same bytes; short and trailing input rejected"
 wal_l1c!(c12_wal_submission_acceptance_none, SubmissionAcceptanceRecord, 130, [128, 129, 130], |b: &mut [u8; 130]| b[64] = 0);
 
-//@ also=C13 tier=quick timeout=900 mem=8 bits=1296 unwind=4 unwindset="c12_walrec=164;memcmp=34" fns=warp_core::causal_wal::SubmissionAcceptanceRecord::from_payload_bytes,SubmissionAcceptanceRecord::to_payload_bytes,WalPayloadCursor::read_hash,read_optional_hash,finish
+//@ also=C13 tier=off timeout=900 mem=8 bits=1296 unwind=4 unwindset="c12_walrec=164;memcmp=34" fns=warp_core::causal_wal::SubmissionAcceptanceRecord::from_payload_bytes,SubmissionAcceptanceRecord::to_payload_bytes,WalPayloadCursor::read_hash,read_optional_hash,finish
 //@ bounds="every byte string of length 160, 161 (valid) and 162 whose option tag (byte 64) is 1"
 //@ desc="submission acceptance record with idempotency key: accepted => re-encodes to exactly the same bytes"
 wal_l1c!(c12_wal_submission_acceptance_some, SubmissionAcceptanceRecord, 162, [160, 161, 162], |b: &mut [u8; 162]| b[64] = 1);
@@ -148,7 +148,7 @@ proof! {
     }
 }
 
-//@ also=C13 tier=quick timeout=1500 mem=12 bits=280 unwind=4 unwindset="c12_walrec=10;memcmp=34;to_canonical_bytes=6;from_canonical_bytes=6" fns=warp_core::causal_wal::WalReceiptCorrelationRecord::from_payload_bytes,warp_core::causal_receipt::CausalTickReceiptRef::from_canonical_bytes
+//@ also=C13 tier=off timeout=1500 mem=12 bits=280 unwind=4 unwindset="c12_walrec=20;memcmp=34;to_canonical_bytes=6;from_canonical_bytes=6" fns=warp_core::causal_wal::WalReceiptCorrelationRecord::from_payload_bytes,warp_core::causal_receipt::CausalTickReceiptRef::from_canonical_bytes
 //@ bounds="receipt-correlation image of exact length 544: magic ERCOR002, fixed child coordinate, declared parent count 2, two parent coordinates symbolic in the last worldline byte, both 8-byte tick counters and the first commit-hash byte (the fields the canonical order compares first); remaining coordinate bytes fixed"
 //@ desc="receipt-correlation record: accepted => the two cited parents are strictly ascending in the coordinate order the encoder sorts by (worldline, tick after, global tick, hashes - ticks compared as integers) - equal or descending parents are rejected, not normalised, and every strictly ascending pair is accepted"
 proof! {
